@@ -991,14 +991,18 @@ class VizierServicer(vizier_service_pb2_grpc.VizierServiceServicer):
       )
       grpc_util.handle_exception(e, context)
 
-    try:
-      self.datastore.update_metadata(
-          request.name,
-          [x.metadatum for x in request.delta if not x.HasField('trial_id')],
-          [x for x in request.delta if x.HasField('trial_id')],
-      )
-    except KeyError as e:
-      return vizier_service_pb2.UpdateMetadataResponse(
-          error_details=';'.join(e.args)
-      )
+    # The study lock serializes this write with the read-modify-write sequences
+    # of CompleteTrial, AddTrialMeasurement, StopTrial and SetStudyState, which
+    # would otherwise write back a stale copy and lose the metadata update.
+    with self._study_name_to_lock[request.name]:
+      try:
+        self.datastore.update_metadata(
+            request.name,
+            [x.metadatum for x in request.delta if not x.HasField('trial_id')],
+            [x for x in request.delta if x.HasField('trial_id')],
+        )
+      except KeyError as e:
+        return vizier_service_pb2.UpdateMetadataResponse(
+            error_details=';'.join(e.args)
+        )
     return vizier_service_pb2.UpdateMetadataResponse()
